@@ -150,6 +150,7 @@ def run(ctx):
         'corrupt files: one base layout (records E and C in one bucket, V alone on the second page), damage classes concretized by fixed representative values; '
         'random damage uses 32-aligned or out-of-range pointers only, so that decoder and library agree on which records exist',
         'truncation of a file that is currently mapped is outside the property; files deleted while in use are scenario steps (rmfile / rmdir)',
+        'the mode file is one of the damaged files: every prefix of the three texts SetMode writes plus garbage classes (ModeBytes.tla), through open + Add + Read and upload.Run; telemetry.Start (sidecar start-up) is C16 and not run here',
         'mode on: the uploader fetches its config through a file proxy (go mod download) as the repository tests do; the exec itself is not a fault point',
     ]
     ctx.inject('internal/counter', 'internal/upload', 'internal/verifh/c05')
@@ -162,12 +163,82 @@ def run(ctx):
     fut_corrupt = pool.submit(ctx.tlc, 'Corrupt', cfg_text='SPECIFICATION Spec\nINVARIANT Sane\nCHECK_DEADLOCK FALSE\nCONSTANTS\n MaxDamage = %d\n MaxDamageParse = 2\n' % maxdmg,
                               dump=True, workers=4, label='Corrupt (MaxDamage=%d)' % maxdmg)
     fut_cases = pool.submit(lambda: corrupt_replay(ctx, rng2, fut_corrupt.result(), pool))
+    fut_mode = pool.submit(mode_part, ctx, pool)
     fstate = faults_replay(ctx, rng, pool)
     faults_decide(ctx, *fstate)
     corrupt_decide(ctx, *fut_cases.result())
+    fut_mode.result()
     pool.shutdown()
     ctx.cov['rule'] = ('a case is one fault plan (which calls fail with which errno) replayed over one API scenario of the instrumented real packages, or one corrupt '
                        'counter file written to disk and opened + incremented by the real library; each is decided by TLC against Faults.tla / Corrupt.tla')
+
+
+# ------------------------------------------------------------------------ mode file
+def mode_part(ctx, pool):
+    """The mode file truncated / overwritten with arbitrary bytes (ModeBytes.tla), through opening counters +
+    incrementing + reading back, and through upload.Run."""
+    r = ctx.tlc('ModeBytes', dump=True, workers=2, label='ModeBytes (contents x entry points)')
+    if not r.ok:
+        raise Infra('ModeBytes.tla: spec-level sanity failed: %s %s\n%s' % (r.error, r.error_name, r.out[-3000:]))
+    vectors = sorted(((st['content'], st['ep'], st['exp']) for st in tlaval.read_dump(r.dump)), key=lambda v: json.dumps(v[:2], sort_keys=True))
+    cscn, uscn = [], []
+    for k, (c, ep, exp) in enumerate(vectors):
+        mc = dict(kind=c['kind'], base=c['base'], cut=c['cut'], g=c['g'])
+        if ep == 'counter':
+            cscn.append(dict(name='mode:%d' % k, setup='existing', mode='', modeClass=mc, steps=[S('open'), S('add', 'c1', 2), S('add', 'o1', 1), S('read', 'c1')]))
+        else:
+            uscn.append(dict(name='mode:%d' % k, mode='', modeClass=mc, junk=False, debug=False, steps=['run']))
+    fc = pool.submit(harness, ctx, './internal/counter', 'TestVerifC05Faults', {'scenarios': cscn, 'plans': [], 'budget': 20000})
+    fu = sharded(ctx, pool, './internal/upload', 'TestVerifC05Upload', {'plans': [], 'budget': 200000}, 'scenarios', uscn, 2)
+    (crecs, out), (urecs, out2) = fc.result(), gather(fu)
+    got = {x['scn']: x for x in crecs + urecs if x.get('kind') == 'recording'}
+    if len(got) != len(vectors):
+        raise Infra('C05 mode file: %d results for %d cases\n%s\n%s' % (len(got), len(vectors), out[-1500:], out2[-1500:]))
+    lines, info = [], []
+    for k, (c, ep, exp) in enumerate(vectors):
+        x = got['mode:%d' % k]
+        steps = x['steps']
+        bad = [s for s in steps if s['ret'] not in ('ok', 'skipped')]
+        ret = bad[0]['ret'] if bad else 'ok'
+        if ep == 'counter':
+            adds = [s for s in steps if s['op'] == 'add']
+            o = dict(ret=ret, open='parks' if steps[0]['parked'] else ('opens' if steps[0]['cur'] else 'inconsistent'),
+                     persisted=all(s['dP'] == s['n'] and s['dE'] == 0 for s in adds), others=any(s['others'] for s in steps), uploads=False)
+        else:
+            o = dict(ret=ret, open='-', persisted=False, others=any(s['orphans'] or s['touched'] for s in steps),
+                     uploads=any(t.startswith('upload/2024-') for t in x.get('tree', [])))
+        lines.append(dict(c=c, ep=ep, o=o))
+        info.append((bad[0] if bad else None, x))
+    r = ctx.tlc('ModeBytesTrace', files={'c05mode.ndjson': ndjson_text(lines)}, workers=1, label='ModeBytesTrace', count=False)
+    b = printed(r.out, 'C05MBAD')
+    if b is None or not r.ok:
+        raise Infra('ModeBytesTrace: no verdict (%s)\n%s' % (r.error, r.out[-3000:]))
+    ctx.cov['mode_file_cases'] = len(lines)
+    ctx.cov['evaluations'] += len(lines)
+    ctx.cov['traces_validated_against_impl'] += len(lines) - len(b)
+    ctx.cov['distinct_nontrivial'] += len(lines)
+    ndiv = 0
+    for (i, verdict) in sorted(tuple(x) for x in b):
+        c, ep, o = lines[i - 1]['c'], lines[i - 1]['ep'], lines[i - 1]['o']
+        st, x = info[i - 1]
+        if c['kind'] == 'prefix':
+            wl = len(c['base'])
+            region = 'in-word' if c['cut'] < wl else 'word' if c['cut'] == wl else 'blank' if c['cut'] == wl + 1 else 'in-date' if c['cut'] < wl + 11 else 'whole'
+            text = repr(('%s 2023-09-26' % c['base'])[:c['cut']])
+        else:
+            region, text = c['g'], 'garbage class ' + c['g']
+        if verdict.startswith('mode-'):
+            ndiv += 1
+            if ndiv <= 5:
+                ctx.warn('MODEL-DIVERGENCE mode file %s, %s: %s (observed %s)' % (text, ep, verdict, json.dumps(o)))
+            continue
+        where = (hang_fn(st.get('where')) if verdict in ('hang', 'blocked') else st.get('where')) if st else '?'
+        ctx.violation('C05:modefile:%s:%s:%s:%s' % (verdict, ep, where or '?', region),
+                      {'mode_file': c, 'bytes': text, 'entry_point': ep, 'observed': x['steps']},
+                      'mode file holding %s, %s: %s in step %s: %s' % (
+                          text, 'open + Add + Read' if ep == 'counter' else 'upload.Run', verdict, (st or {}).get('op'), ((st or {}).get('where', '') + ' ' + (st or {}).get('text', '')).strip()))
+    ctx.cov['divergences'] += ndiv
+    ctx.sample({'kind': 'mode file content', 'content': lines[len(lines) // 2]['c'], 'entry_point': lines[len(lines) // 2]['ep'], 'observed': lines[len(lines) // 2]['o']})
 
 
 # --------------------------------------------------------------------------- faults
